@@ -291,9 +291,9 @@ func genHostPort(r *core.Rand) string {
 // ---- cases ----
 
 func (P) Gen(r *core.Rand, tier string, emit func([]string)) {
-	nBasic, nExp, nConc, nRef, nOdd, nLib, nVfy, nPoll := 12, 4, 6, 4, 5, 60, 25, 1
+	nBasic, nExp, nConc, nRef, nOdd, nLib, nVfy, nPoll, nFault := 12, 4, 6, 4, 5, 60, 25, 1, 2
 	if tier == "thorough" {
-		nBasic, nExp, nConc, nRef, nOdd, nLib, nVfy, nPoll = 160, 30, 60, 30, 60, 3000, 600, 8
+		nBasic, nExp, nConc, nRef, nOdd, nLib, nVfy, nPoll, nFault = 160, 30, 60, 30, 60, 3000, 600, 8, 40
 	}
 	// the configuration space: the CA may be of any key kind NewConfig accepts (its signature says `interface{}`)
 	caOp := func(num, den int) []string {
@@ -301,6 +301,44 @@ func (P) Gen(r *core.Rand, tier string, emit func([]string)) {
 			return []string{"ca " + r.Pick(caKinds...)}
 		}
 		return nil
+	}
+	for i := 0; i < nFault; i++ { // fault injection at the signing step x cache state (miss / valid hit / expired hit)
+		p := []string{genBase(r), genBase(r), genBase(r), genBase(r)}
+		g := func(h string, hs bool) string {
+			if hs {
+				return "hs host " + core.HexS(spell(r, h)) + " -"
+			}
+			return "get host " + core.HexS(spell(r, h)) + " -"
+		}
+		ops := []string{"ca " + r.Pick("faulty", "faultyec"), "realtime"}
+		if i%2 == 0 { // scripted: issue, signer down, hits and misses, expiry with the signer down, signer back
+			ops = append(ops, "validity 2", g(p[0], false), g(p[1], false), "validity 3600", g(p[2], false), "validity 2",
+				"signfail on", g(p[0], false), g(p[3], false), g(p[1], true), g(p[2], false),
+				"expire", g(p[0], false), g(p[1], true), g(p[2], false), g(p[3], false), concOp(r, p, 8), g(p[0], false),
+				"signfail off", g(p[0], false), g(p[1], true), g(p[3], false), g(p[2], false))
+		} else { // random: the signer fails from the k-th call on / for a while
+			ops = append(ops, "validity "+r.Pick("2", "2", "3600"))
+			expired := false
+			for j, k := 0, r.Range(14, 26); j < k; j++ {
+				switch r.Intn(9) {
+				case 0, 1:
+					ops = append(ops, "signfail "+r.Pick("on", "on", "off"))
+				case 2:
+					if !expired {
+						ops = append(ops, "expire")
+						expired = true
+					} else {
+						ops = append(ops, "validity "+r.Pick("2", "3600"))
+					}
+				case 3:
+					ops = append(ops, concOp(r, p, 6))
+				default:
+					ops = append(ops, g(p[r.Intn(len(p))], r.Chance(1, 5)))
+				}
+			}
+			ops = append(ops, "signfail off", g(p[0], false), g(p[1], false))
+		}
+		emit(ops)
 	}
 	for i := 0; i < nPoll; i++ { // steady traffic to a host across the end of its 2-second leaf (and of a second one, 300 ms out of phase)
 		p := []string{genBase(r), genBase(r)}
